@@ -252,7 +252,7 @@ def ast_hash(node):
     return hashlib.sha256(ast.dump(node, include_attributes=False).encode()).hexdigest()[:16]
 
 
-MODULE_GLOBALS = {'sle': SModule('sle'), 'tt': SModule('tt'), 'np': SModule('np'), 'linalg': SModule('linalg'), 'lin': SModule('lin'), 'utl': SModule('utl'),
+MODULE_GLOBALS = {'math': SModule('math'), 'sle': SModule('sle'), 'tt': SModule('tt'), 'np': SModule('np'), 'linalg': SModule('linalg'), 'lin': SModule('lin'), 'utl': SModule('utl'),
                   '_time': SModule('_time'), 'TT': ('TTclass',), 'sp': SModule('sp')}
 
 
